@@ -32,3 +32,7 @@ MANIFEST_ENTRY = {
     "note": "Trusted: class-tree model of __subclasses__, pyvc + z3. The staleness decision for numpy-based leaves and for update_values_from_data is bounded. Known findings: attribute setters and direct ROI edits "
             "never invalidate memoised masks (one entry per mutator in known_findings.json).",
 }
+
+MANIFEST_ENTRY['text'] += " Also proved: update_components skips nothing when the caller hands in the very buffer a component already holds (edited in place), and LinkManager.update_externally_derivable_components leaves every dataset with attributes derived from the links registered on return, also when a listener changes the links from inside a notification (ghost link-set version; the re-entered refresh is used through the function's own postcondition)."
+TRUSTED_BASE.append("refresh contract: a listener is modelled as 'may change the registered links after any notification'; the refresh it thereby re-enters is used through this contract's own postcondition (assumed for the inner call, proved for the outer one); discover_links / DerivedComponent / equivalent_pixel_cids are stubs returning tokens")
+TRUSTED_BASE.append("update_components contract: np.array_equal / shares_memory style comparisons answer 'equal' for the very buffer a component holds whatever happened to its contents")
